@@ -1191,6 +1191,18 @@ fn round_cases(w: &World, rng: &mut Rng, round: u64, rich: bool) -> Vec<Case> {
             }
         }
     }
+    // beyond the decoder's documented 65535-octet limit nothing is asserted
+    // about acceptance, but neither decoding nor validation may panic
+    for (i, total) in [65536usize, 65537, 66000, 70000].iter().enumerate() {
+        if let Some(ct) = ct_for_total(*total, round * 37 + i as u64) {
+            let mut c = generic_case(rng, key, ct, T_IN);
+            c.strict = i % 2 == 0;
+            c.rel = format!("attrs-total-{}", total);
+            c.assert_outcome = false;
+            c.why_recorded = "signed-attrs-above-65535";
+            out.push(c);
+        }
+    }
     for _ in 0..(if rich { 60 } else { 10 }) {
         let body = 3 + rng.usize_below(400);
         let ct = cms::oid_with_body_len(body, rng.next_u64());
